@@ -170,6 +170,12 @@ func c17Body(rc *RunCtx) {
 		if simrt.Chance(1, 2) {
 			put(fmt.Sprintf("%s-%s-%s.log", d.LogID, "othername", ymd(nowMs-20*day))) // own id prefix, other object name
 		}
+		// calendar corners among the logger's own old files: leap days, month and year ends
+		for _, date := range []string{"20240229", "20200229", "20231231", "20240131", "20240430", "20250228", "20240301"} {
+			if simrt.Chance(1, 4) && date < ymd(nowMs) {
+				put(fmt.Sprintf("%s-%s-%s.log", d.LogID, d.Oname, date))
+			}
+		}
 		if simrt.Chance(1, 2) {
 			put(fmt.Sprintf("%sx-%s-%s.log", d.LogID, d.Oname, ymd(nowMs-30*day))) // look-alike foreign
 		}
@@ -557,7 +563,20 @@ func c17After(rc *RunCtx, res *simrt.Result) {
 	// retention
 	prefix := d.LogID + "-"
 	exists := func(name string) bool { _, ok := d.final[name]; return ok }
-	for _, name := range d.InitNames {
+	// every file that existed at some time: initial ones, the logger's own creations still
+	// present, and those it created and retention removed again
+	seenName := map[string]bool{}
+	var everNames []string
+	for _, lst := range [][]string{d.InitNames, finalNames} {
+		for _, n := range lst {
+			if !seenName[n] {
+				seenName[n] = true
+				everNames = append(everNames, n)
+			}
+		}
+	}
+	sort.Strings(everNames)
+	for _, name := range everNames {
 		mix(uint64(len(name)))
 		own := strings.HasPrefix(name, prefix) && strings.HasSuffix(name, ".log")
 		date := ""
